@@ -191,7 +191,7 @@ CERTS = {
     "C14": _RX_PROGRESS,
     "C01": [("XVC.ir_complete", _B)] + _DEAD,
     "C02": [("XVC.ir_complete", _B), ("XVC.errortoken_unmatched", _B), ("XVC.start_demands_endmarker", _B)] + _DEAD,
-    "C05": [("XVC.ir_complete", _B)] + _DEAD,
+    "C05": [("XVC.ir_complete", _B), ("XVC.xonsh_builder_table", _B)] + _DEAD,
     "C03": [("XVC.ir_complete", _B)] + _RX_PROGRESS + [("XVC.gen_pseudo_progress", _R), ("XVC.shipped_tokenizer_total", _R),
             ("XVC.wf_cert", "XonshCerts.Total"), ("XVC.shipped_parser_total", "XonshCerts.Total"), ("XVC.shipped_parse_string_total", "XonshCerts.Total"), ("XVC.no_nullable_rule", "XonshCerts.Total")],
     "C06": [("XVC.bracket_method_table", _B)],
